@@ -96,9 +96,9 @@ func init() {
 			"unsubscribe-during-publish: a target unsubscribed (and re-subscribed under another key) while a publish is parked on it must not receive that publish's value afterwards. non-trivial = a round had at least one eligible and one ineligible subscription or an event during the publish; distinct = distinct (subscription plan, value, event order) signatures",
 		Assumptions: []string{"a subscription whose context is cancelled while the publish is in flight may receive 0 or 1 copies", "map iteration order inside the library supplies the internal arrangement; notifier.publish.select is delayed to stretch the gaps between deliveries"},
 		Families: []core.Family{
-			{Name: "rounds", N: core.TierN(3000, 40000), Batch: 50, Run: c15Round},
-			{Name: "registry", N: core.TierN(120, 1200), Batch: 20, Run: c15Registry},
-			{Name: "unsubscribe-during-publish", N: core.TierN(32, 320), Batch: 8, Run: c15UnsubDuring},
+			{Name: "rounds", N: core.TierN(3000, 160000), Batch: 50, Run: c15Round},
+			{Name: "registry", N: core.TierN(120, 4800), Batch: 20, Run: c15Registry},
+			{Name: "unsubscribe-during-publish", N: core.TierN(32, 1280), Batch: 8, Run: c15UnsubDuring},
 		},
 	})
 }
